@@ -5,7 +5,7 @@ ScriptsDef == { <<"E">>, <<"K", "E">>, <<"K", "K", "E">>, <<"V", "K", "E">>, <<"
 
 \* Export: every final state (nothing left for the environment to do) with its verdict, one JSON line each
 Final == Quiescent /\ EnvDone /\ started = NAux
-Verdict == IF Stuck THEN "stuck" ELSE IF mpc = "returned" /\ line # Expected THEN "wrongline" ELSE "good"
+Verdict == IF Stuck THEN "stuck" ELSE IF mpc = "returned" /\ (line # Expected \/ garbage) THEN "wrongline" ELSE "good"
 Export == Final => PrintT(<<"SCHED", ToJson([script |-> script, sched |-> sched, verdict |-> Verdict,
                                               m |-> mpc, aux |-> [a \in Aux |-> apc[a]]])>>)
 =============================================================================
